@@ -648,3 +648,54 @@ Proof.
   - eapply Forall_impl; [|exact Hev]. simpl. intros e He. apply He.
   - eapply Forall_impl; [|exact K]. simpl. intros e He. apply He.
 Qed.
+
+(* one growth: both branches of driver_mlen give the length after coo_increase_mem (the regime of volume_mlen) *)
+Lemma driver_mlen_1 limit n mlen : driver_mlen 1 limit n mlen = grow_min_size mlen.
+Proof. cbn [driver_mlen]. destruct (_ <=? _); reflexivity. Qed.
+
+Lemma start_ok_volume limit n mlen : start_ok limit n mlen (volume_mlen limit n mlen).
+Proof.
+  unfold start_ok, volume_mlen. destruct (n <=? limit) eqn:T; [|right; lia].
+  apply Z.leb_le in T. left. split; [exact T|]. exists 1%nat. rewrite driver_mlen_1. lia.
+Qed.
+
+(* end to end: chunks, one accumulator per chunk *)
+Theorem end_to_end_k doc (f : doc -> list entry) docs sizes n_threads limit (capf mlenf Mf : Z * Z -> Z) k :
+  length sizes = length docs -> 1 <= limit -> (forall ch, 20 <= capf ch) ->
+  Forall (fun e => 0 <= e_key e) (events_of doc f docs) ->
+  (forall ch, 4 <= mlenf ch /\ start_ok limit (capf ch) (mlenf ch) (Mf ch) /\
+              8 * zlen (events_of doc f docs) + 6 * limit < limit * 2 ^ (Mf ch - 1)) ->
+  fold_right Z.add 0
+    (map (fun ch => acc_matrix limit (capf ch) (mlenf ch) (events_of doc f (chunk_docs docs ch)) k)
+         (chunk_boundaries sizes n_threads))
+  = sumby (events_of doc f docs) k.
+Proof.
+  intros Hlen Hl Hcap Hk Hm.
+  rewrite <- (chunked_matrix_total doc f docs sizes n_threads k Hlen). unfold chunked_matrix.
+  f_equal. apply map_ext. intros ch.
+  destruct (events_of_slice_bounds doc f docs ch) as [B1 B2].
+  destruct (Hm ch) as (M1 & M2 & M3).
+  destruct (run_total_k (fun _ => True) limit (capf ch) (mlenf ch) (Mf ch) (events_of doc f (chunk_docs docs ch)))
+    as (s & E & D & _); auto.
+  - unfold keys_nonneg. rewrite Forall_forall in *. intros x Hx. split; [apply Hk, B2, Hx|exact I].
+  - lia.
+  - unfold acc_matrix. rewrite E. apply D.
+Qed.
+
+(* two strictly sorted key lists with the same elements are equal *)
+Lemma sorted_keys_unique (a b : list Z) :
+  StronglySorted Z.lt a -> StronglySorted Z.lt b -> (forall k, In k a <-> In k b) -> a = b.
+Proof.
+  revert b. induction a as [|x a IH]; intros b Sa Sb H.
+  - destruct b as [|y b]; [reflexivity|]. destruct (proj2 (H y) (or_introl eq_refl)).
+  - destruct b as [|y b]; [destruct (proj1 (H x) (or_introl eq_refl))|].
+    inversion Sa as [|? ? Sa' Fa]; subst. inversion Sb as [|? ? Sb' Fb]; subst.
+    rewrite Forall_forall in Fa, Fb.
+    assert (x = y).
+    { destruct (proj1 (H x) (or_introl eq_refl)) as [E|Hx]; [symmetry; exact E|].
+      destruct (proj2 (H y) (or_introl eq_refl)) as [E|Hy]; [exact E|].
+      specialize (Fa y Hy). specialize (Fb x Hx). lia. }
+    subst y. f_equal. apply IH; [exact Sa'|exact Sb'|]. intros k. split; intros Hk.
+    + destruct (proj1 (H k) (or_intror Hk)) as [E|Hk']; [|exact Hk']. subst k. specialize (Fa x Hk). lia.
+    + destruct (proj2 (H k) (or_intror Hk)) as [E|Hk']; [|exact Hk']. subst k. specialize (Fb x Hk). lia.
+Qed.
